@@ -595,4 +595,42 @@ func randomCol(r *rand.Rand) Col {
 	}
 }
 
+// colShapes lists one column per branch of a row decoder: every integer width and signedness, every fraction length of
+// the temporal types, DECIMALs with every number of leftover digits (0..8) on either side of the point together with
+// none, one and several full groups of nine, both length widths of the string types, every pack length.
+func colShapes() []Col {
+	var out []Col
+	for _, k := range []string{"tiny", "short", "int24", "long", "longlong"} {
+		out = append(out, colInt(k, false), colInt(k, true))
+	}
+	out = append(out, colFloat(), colDouble(), colYear(), colDate(), colTimeOld(), colDateTimeOld(), colTimestampOld())
+	for fsp := 0; fsp <= 6; fsp++ {
+		out = append(out, colTimestamp2(fsp), colDateTime2(fsp), colTime2(fsp))
+	}
+	for _, s := range []int{0, 1, 2, 3, 4, 5, 6, 7, 8, 9, 10, 18, 20, 27, 30} {
+		for _, intg := range []int{0, 1, 5, 9, 10, 18, 35} {
+			if p := intg + s; p >= 1 && p <= 65 {
+				out = append(out, colDecimal(p, s))
+			}
+		}
+	}
+	for _, m := range []int{0, 1, 255, 256, 65535} {
+		out = append(out, colVarchar(m))
+	}
+	for _, m := range []int{0, 1, 255, 256, 767, 768, 1023} {
+		out = append(out, colChar(m))
+	}
+	out = append(out, colEnum(1), colEnum(2))
+	for n := 1; n <= 8; n++ {
+		out = append(out, colSet(n))
+	}
+	for _, n := range []int{1, 7, 8, 9, 16, 17, 33, 63, 64} {
+		out = append(out, colBit(n))
+	}
+	for n := 1; n <= 4; n++ {
+		out = append(out, colBlob(n), colGeometry(n))
+	}
+	return out
+}
+
 var _ = binary.LittleEndian
